@@ -343,6 +343,7 @@ package dig
 // lookups (C01, C04, C08, C12)
 
 //@ pure func vkey(t RType, name Str) key = mk(key, t, name, "")
+//@ pure func decoratorRunningFor(s *Scope, k key) Bool = exists i int :: 0 <= i && i < s.nanc && k in s.anc[i].decorators && s.anc[i].decorators[k].state == decoratorOnStack
 //@ pure func gkey(t RType, group Str) key = mk(key, t, "", group)
 //@ pure func isScope(c Any) Bool = is(c, ptr(Scope)) && as(c, ptr(Scope)) != nil
 //@ pure func scopeOf(c Any) *Scope = as(c, ptr(Scope))
@@ -524,6 +525,13 @@ package dig
 //@   site call (dig.provider).Call #1: assert[C08:provider-sees-its-own-scope,C01:provider-sees-its-own-scope,C03:provider-sees-its-own-scope] is($recv, ptr(constructorNode)) && isScope($arg0) && scopeOf($arg0) == as($recv, ptr(constructorNode)).origS
 //@   site call (dig.provider).Call #1: assert[C03:provider-is-registered-for-the-key] exists j int, idx int :: 0 <= j && j < S.nanc && 0 <= idx
 //@        && idx < len(at(storesToRoot_1, S.anc[j].providers[k])) && $recv == at(storesToRoot_1, S.anc[j].providers[k][idx])
+// C12 (finding F12): a function other than the decorator itself never receives
+// the undecorated value. A decorator that is running is skipped by
+// buildWithDecorators, so a constructor built now must have no direct input
+// whose decorator is running.
+//@   site call (dig.provider).Call #1: assert[C12:no-constructor-is-built-while-a-decorator-of-its-input-is-running] (let n = as($recv, ptr(constructorNode)) in
+//@        !n.called && !n.onStack ==> (forall j int :: 0 <= j && j < len(n.paramList.Params) && is(n.paramList.Params[j], paramSingle)
+//@          ==> !decoratorRunningFor(n.s, vkey(as(n.paramList.Params[j], paramSingle).Type, as(n.paramList.Params[j], paramSingle).Name))))
 
 //@ func newErrMissingTypes(c, k) (e)
 //@   requires isScope(c) && k.t != nil
@@ -1073,6 +1081,11 @@ package dig
 //@   ensures[C15:result-field-keeps-its-index] rof.FieldIndex == idx
 //@   ensures[C15:result-field-has-a-result] err == nil ==> okResult(rof.Result)
 //@   ensures[C14:unexported-result-field-is-rejected] f.PkgPath != "" ==> err != nil
+// C15: a group named by the field tag means what the same group named by the
+// Group option means, also under an As option: newResult() feeds the group of
+// the first As interface then (finding F15: the tag path ignores As)
+//@   ensures[C15:a-group-tag-means-what-the-group-option-means] reached(newResultGrouped_1) && err == nil && len(opts.As) > 0 && elem(typeOf(opts.As[0])) != f.Type
+//@        && !as(rof.Result, resultGrouped).Flatten ==> as(rof.Result, resultGrouped).Type == elem(typeOf(opts.As[0]))
 
 //@ func newResultList(ctype, opts) (rl, err)
 //@   requires ctype != nil && kind(ctype) == kFunc()
